@@ -269,6 +269,17 @@ func apply(s []byte, L int, t tamper, r *rand.Rand) []byte {
 	panic("tamper kind " + t.Kind)
 }
 
+// fill writes pseudo-random NON-ZERO bytes: a buffer that the code under test cleared can then never be
+// mistaken for plaintext.
+func fill(r *rand.Rand, b []byte) {
+	r.Read(b)
+	for i := range b {
+		if b[i] == 0 {
+			b[i] = 0xA5
+		}
+	}
+}
+
 type store struct {
 	enc, raw partstore.PartStore
 	root     string // filesystem root ("" for sql)
@@ -466,7 +477,7 @@ func main() {
 		r := rand.New(rand.NewSource(seed*1000003 + int64(k.Case)))
 		L := k.Lc.n()
 		plainA := make([]byte, L)
-		r.Read(plainA)
+		fill(r, plainA)
 		idA, err := partstore.NewRandomPartId()
 		must(err)
 		st.put(*idA, plainA)
@@ -483,7 +494,7 @@ func main() {
 			idB, err := partstore.NewRandomPartId()
 			must(err)
 			plainB := make([]byte, L)
-			r.Read(plainB)
+			fill(r, plainB)
 			st.put(*idB, plainB)
 			readId, plain = *idB, plainB
 		}
